@@ -188,9 +188,9 @@ static std::string string_to(const std::string &dst, const std::string &route, b
         if (route == "std") return show_std(s.to_std_wstring());
         if (route == "std_ref") { std::wstring r; s.to_std_string(r); return show_std(r); }
     } else if (dst == "l1") {
-        if (route == "member") return show(s.to_latin_1(sub));
+        if (route == "member") return show(sub ? same_as_default(s.to_latin_1(sub), s.to_latin_1()) : s.to_latin_1(sub));      // substitute_out_of_range defaults to true
         if (route == "buffer") { ST::char_buffer b; s.to_buffer(b, false, sub); return show(b); }
-        if (route == "std") return show_std(s.to_std_string(false, sub));
+        if (route == "std") return show_std(sub ? same_as_default(s.to_std_string(false, sub), s.to_std_string(false)) : s.to_std_string(false, sub));
     }
     return "bad-route";
 }
